@@ -7,7 +7,7 @@ COQ_IMPORTS = ['C12_Model']
 MODELLED_FUNCS = {'sugar/core/cane.py': ['find_orfs', '_frame_start', '_inds2orf', 'match'],
                   'sugar/core/seq.py': ['BioSeq.find_orfs', 'BioSeq.matchall', 'BioSeq.match', 'BioBasket.find_orfs']}
 GENERATORS = ['gen_codes']          # C12_Model uses the C05 model of BioSeq.rc, which reads the regenerated COMPLEMENT tables
-RULE = ('round 7 x-stream (700 quick / 6 000 thorough, through run_C12x): gap in {-, ., .-, -., _, ~, *, N, ._, -_, _.-, -~, None} on texts with gap '
+RULE = ('round 7 x-tail grid (about 750 cases: gap in {_, ~, N, ._, ., -., None}; the last in-frame codon followed by 1/2/9 columns of gap characters of the set or of stray symbols of another set, both strands, modes); round 7 x-stream (700 quick / 6 000 thorough, through run_C12x): gap in {-, ., .-, -., _, ~, *, N, ._, -_, _.-, -~, None} on texts with gap '
         'columns of the chosen set and stray symbols of the others, start in {start, ATG, ATG|GTG|TTG, ATG|CTG, AUG|ATG, GTG, ATG|ATA, stop, '
         'ATGG|AT, TG|ATG} x stop in {stop, TAA, TAA|TAG, TGA, TAG|TGA|TAA, UAA|TAA, TAA|AAT, start, TAAA|TA}, rf names / ints / tuples / lists / '
         'frames outside -3..2 (alone and mixed) / one numpy integer / float / None / other strings / repeated frames, all modes and minlen; '
@@ -277,6 +277,7 @@ def _gen_x_stream(rng, n):
 def gen_cases(rng, tier):
     cases = []
     cases += _gen_x_stream(rng, 6000 if tier == 'thorough' else 700)
+    cases += _gen_xtail_grid(rng)
     # hand-picked: every start/stop codon alone, in frame, on both strands, with gaps
     for st in ('ATG', 'AUG'):
         for sp in ('TAA', 'TAG', 'TGA', 'UAA', 'UAG', 'UGA'):
@@ -402,6 +403,33 @@ def _gen_tail_grid(rng):
                         rf = rng.choice(['both', 'bwd', -1 - j, [-1 - j, j]]) if bwd else rng.choice(['both', 'fwd', j, [j, -1 - j]])
                         out.append(_mk(_with_gap(rng, s, gap), rf=rf, rf_tuple=True, need_start=ns, need_stop=st, gap=gap,
                                        minlen=rng.choice([0, 0, 0, 3])))
+    return out
+
+
+def _gen_xtail_grid(rng):
+    """the tail grid for the other gap sets: the last in-frame codon is followed by k columns that are gap characters of the
+    chosen set (stripped by rstrip(gap): `last` lies before them) or stray symbols of another set (residues: `last` lies behind
+    them), after j leading columns, on both strands, every mode"""
+    out = []
+    comp = {'A': 'T', 'C': 'G', 'G': 'C', 'T': 'A'}
+    for gap in ('_', '~', 'N', '._', '.', '-.', None):
+        own = gap or ''
+        for tail_own in (True, False):
+            pool = own if tail_own else ''.join(ch for ch in '-._~' if ch not in own)
+            if not pool:
+                continue
+            for k in (1, 2, 9):
+                for j in (0, 1, 2):
+                    for bwd in (False, True):
+                        body = rng.choice(['ATGCCCTAA', 'ATGTAGCCCTGA', 'CCCTAAATGTGA', 'ATGCCC', 'TAAATG', 'CCCTAA'])
+                        lead = rng.choice(['', pool[0], 'C', pool[0] + 'C'])
+                        read = lead + 'C' * j + body + (rng.choice(pool) * k if rng.random() < 0.6 else ''.join(rng.choice(pool) for _ in range(k)))
+                        s = ''.join(comp.get(ch, ch) for ch in reversed(read)) if bwd else read
+                        for ns, st in (MODES if gap is None else rng.sample(MODES, 3)):
+                            rf = rng.choice(['both', 'bwd', -1 - j, [-1 - j, j]]) if bwd else rng.choice(['both', 'fwd', j, [j, -1 - j]])
+                            c = _mk(s, rf=rf, rf_tuple=True, need_start=ns, need_stop=st, gap=gap, minlen=rng.choice([0, 0, 0, 0, 0, 3]))
+                            c['x'] = True
+                            out.append(c)
     return out
 
 
